@@ -5,6 +5,7 @@
    the RTR model ([iv_apply]) is what that code computes, for every 32-bit value, mode and field.
    Tie (b): tools/props/C17.py runs the boundary grid through the real rtr_sync.
    The RFC 8210 ranges appear as literals: a changed constant in /repo breaks these theorems.   *)
+From RtrV Require Gen.GeneratedFsm Rtr.FsmTie.
 From RtrV Require Import Base.CSem Gen.Generated Rtr.RtrModel Rtr.IntervalProofs.
 Local Open Scope string_scope.
 Local Open Scope Z_scope.
@@ -48,9 +49,18 @@ Theorem C17_poll_deadline : forall w v rest,
              now w' = Z.max (now w) (last_update (sk w) + refresh_iv (sk w)).
 Proof. exact quiet_until_refresh. Qed.
 
+(* the wait of the ESTABLISHED state as the code computes it: rtr_wait_for_sync translated from /repo on every run (Gen/GeneratedFsm.v;
+   (last_update + refresh_interval) - cur_time in time_t, clamped at 0, handed to rtr_receive_pdu; Serial Notify / timeout / close
+   decoded from the result) equals the model's wait_for_sync - the function C17_poll_deadline is about - whenever the fields fit their
+   C types (Rtr/FsmTie.v).  An unsigned or 32-bit "elapsed" (seeded C17, C17-r2, C08-r4) breaks this proof. *)
+Theorem C17_wait_translated : forall fuel w, Rtr.FsmTie.wait_range w ->
+  Rtr.FsmTie.run_eff fuel (Gen.GeneratedFsm.rtr_wait_for_sync_gen (Rtr.FsmTie.sock_store (sk w))) w = Some (wait_for_sync w).
+Proof. exact Rtr.FsmTie.wait_tie_world. Qed.
+
 Print Assumptions C17_code_is_model.
 Print Assumptions C17_init.
 Print Assumptions C17_mode.
 Print Assumptions C17_unchanged.
 Print Assumptions C17_in_range.
 Print Assumptions C17_poll_deadline.
+Print Assumptions C17_wait_translated.
